@@ -247,14 +247,19 @@ def handleShim (op : String) (args : List String) (impl : Option (List String)) 
           else
             -- the first operation on which the real shim and the statement's state machine differ
             let itoks := (out.headD "").splitOn ";"
-            let rec first : List String → List String → List (Option StepCtx) → List String
+            -- `lk`: a lock or unlock request occurred earlier in the history; what differs afterwards
+            -- is also a failure to restore exactly the pre-lock view (C08)
+            let rec first (lk : Bool) : List String → List String → List (Option StepCtx) → List String
               | m :: ms, i :: is, c :: cs =>
-                if m == i then first ms is cs
+                let isLock := match c with
+                  | some ⟨some (.lock _), _, _⟩ | some ⟨some (.unlock _), _, _⟩ => true
+                  | _ => false
+                if m == i then first (lk || isLock) ms is cs
                 else match c with
-                  | some ctx => classify univ ctx m i
+                  | some ctx => (classify univ ctx m i ++ (if lk then ["C08"] else [])).eraseDups
                   | none => ["C10"]       -- construction
               | _, _, _ => ["C10"]
-            let cls := first toks itoks ctxs
+            let cls := first false toks itoks ctxs
             "bad:" ++ String.intercalate "," (cls.map (· ++ ".shim-history"))⟩
       | _, _, _ => some badProto
     | _, _ => some badProto
